@@ -2108,7 +2108,10 @@ class Recipe:
         if not name:
             name = f"solution of {solute.name} in {solvent.name}"
 
-        new_ratio, numerator, denominator = Unit.calculate_concentration_ratio(solute, concentration, solvent)
+        try:
+            new_ratio, numerator, denominator = Unit.calculate_concentration_ratio(solute, concentration, solvent)
+        except ZeroDivisionError:  # the concentration of the pure solute
+            new_ratio = float('inf')
         if new_ratio <= 0:
             raise ValueError("Solution is impossible to create.")
 
@@ -2171,7 +2174,10 @@ class Recipe:
         # if solute not in destination.contents:
         #     raise ValueError(f"Container does not contain {solute.name}.")
 
-        ratio, *_ = Unit.calculate_concentration_ratio(solute, concentration, solvent)
+        try:
+            ratio, *_ = Unit.calculate_concentration_ratio(solute, concentration, solvent)
+        except ZeroDivisionError:  # the concentration of the pure solute
+            ratio = float('inf')
         if ratio <= 0:
             raise ValueError("Concentration is impossible to create.")
 
